@@ -1,5 +1,6 @@
 import Abyss.Props.C06
 import Abyss.Props.C06Bound
+import Abyss.Lemmas.AllocBytes
 #print axioms Abyss.C06_partition
 #print axioms Abyss.C06_tiling
 #print axioms Abyss.C06_no_overlap
@@ -16,3 +17,8 @@ import Abyss.Props.C06Bound
 #print axioms Abyss.Spec.peak_le
 #print axioms Abyss.addPiece_count
 #print axioms Abyss.AReach.bound
+#print axioms Abyss.pushFree_bytes
+#print axioms Abyss.popFree_bytes
+#print axioms Abyss.countFree_bytes
+#print axioms Abyss.byteOK_key
+#print axioms Abyss.byteOK_val
